@@ -1,0 +1,31 @@
+//go:build verif
+
+// Contracts (machine-checked specifications) for package template, consumed
+// by the verification-condition generator in /verif/govc. Comment-only.
+package template
+
+//@ -- the spec's own copy of the initialism table (C13): deleting or changing an entry of
+//@ -- golintInitialisms in the code makes Exported disagree with this predicate.
+//@ define isInitialism(u) = u == "ACL" || u == "API" || u == "ASCII" || u == "CPU" || u == "CSS" || u == "DNS"
+//@     || u == "EOF" || u == "GUID" || u == "HTML" || u == "HTTP" || u == "HTTPS" || u == "ID" || u == "IP"
+//@     || u == "JSON" || u == "LHS" || u == "QPS" || u == "RAM" || u == "RHS" || u == "RPC" || u == "SLA"
+//@     || u == "SMTP" || u == "SQL" || u == "SSH" || u == "TCP" || u == "TLS" || u == "TTL" || u == "UDP"
+//@     || u == "UI" || u == "UID" || u == "UUID" || u == "URI" || u == "URL" || u == "UTF8" || u == "VM"
+//@     || u == "XML" || u == "XMPP" || u == "XSRF" || u == "XSS"
+
+//@ func template.templateFuncs[Exported]
+//@   props C13
+//@   safety C19
+//@   loop 1 unroll 64
+//@   ensures empty: s == "" ==> r == ""
+//@   ensures initialism: s != "" && isInitialism(toUpper(s)) ==> r == toUpper(s)
+//@   ensures first-upper: s != "" && !isInitialism(toUpper(s)) ==> r == toUpper(s[0:1]) + s[1:]
+
+//@ func template.templateFuncs[ImportStatement]
+//@   props C11
+//@   requires imprt != nil
+//@   ensures plain: imprt.Alias == "" ==> r == "\"" + pkgPathOf(imprt) + "\""
+//@   ensures aliased: imprt.Alias != "" ==> r == imprt.Alias + " \"" + pkgPathOf(imprt) + "\""
+
+//@ define pkgPathOf(p) = ite(p == nil, "", stripSpec(p.pkg.Path()))
+//@ define stripSpec(s) = uf("registry.stripVendorPath", String, s)
